@@ -2,6 +2,7 @@ package c19
 
 import (
 	"bytes"
+	"crypto/sha512"
 	"fmt"
 	"math/big"
 	"testing"
@@ -501,5 +502,96 @@ func TestH2CP256Differential(t *testing.T) {
 		}
 		vlib.Case(test, vlib.Desc("p256", mc, dc), len(msg) > 0 || dc != "default", "msg="+mc, "dst="+dc)
 		vlib.Sample("h2c-p256-diff", map[string]any{"dst": vlib.Hex([]byte(dst)), "msg": vlib.Hex(msg), "point": got.String()})
+	})
+}
+
+// ---- test 2b: curve25519 / edwards25519 against an independent Elligator 2 ---------------------
+
+// h2cElligator2 is map_to_curve_elligator2 of RFC 9380 §6.7.1 for curve25519
+// (K·t² = s³ + J·s² + s with J = 486662, K = 1, Z = 2), written from the RFC text on math/big.
+func h2cElligator2(u *big.Int) refcurve.Point {
+	c := refcurve.Curve25519()
+	p := c.P
+	mod := func(x *big.Int) *big.Int { return x.Mod(x, p) }
+	J := big.NewInt(486662)
+	g := func(x *big.Int) *big.Int { // x³ + J·x² + x
+		x2 := mod(new(big.Int).Mul(x, x))
+		r := mod(new(big.Int).Mul(x2, x))
+		r.Add(r, new(big.Int).Mul(J, x2))
+		r.Add(r, x)
+		return mod(r)
+	}
+	// x1 = -J · inv0(1 + Z·u²); if that is 0 (only when the denominator is 0): x1 = -J
+	d := mod(new(big.Int).Add(big.NewInt(1), new(big.Int).Mul(big.NewInt(2), new(big.Int).Mul(u, u))))
+	x1 := mod(new(big.Int).Neg(J))
+	if d.Sign() != 0 {
+		x1 = mod(new(big.Int).Mul(x1, new(big.Int).ModInverse(d, p)))
+	}
+	gx1 := g(x1)
+	x2 := mod(new(big.Int).Sub(new(big.Int).Neg(x1), J))
+	gx2 := g(x2)
+	var x, y *big.Int
+	if gx1.Sign() == 0 || refcurve.LegendreFp(gx1, p) == 1 {
+		y, _ = refcurve.SqrtFp(gx1, p)
+		if y.Bit(0) != 1 { // sgn0(y) must be 1
+			y = mod(new(big.Int).Neg(y))
+		}
+		x = x1
+	} else {
+		y, _ = refcurve.SqrtFp(gx2, p)
+		if y.Bit(0) != 0 { // sgn0(y) must be 0
+			y = mod(new(big.Int).Neg(y))
+		}
+		x = x2
+	}
+	return c.NewPoint(x, y)
+}
+
+// h2cHashToCurve25519 is hash_to_curve of curve25519_XMD:SHA-512_ELL2_RO_ (RFC 9380 §8.5:
+// m = 1, L = 48, expand_message_xmd with SHA-512, Elligator 2, h_eff = 8).
+func h2cHashToCurve25519(msg, dst []byte) (refcurve.Point, [2]*big.Int, error) {
+	c := refcurve.Curve25519()
+	us, err := refcurve.HashToFieldXMD(sha512.New, msg, dst, c.P, 1, 48, 2)
+	if err != nil {
+		return refcurve.Point{}, [2]*big.Int{}, err
+	}
+	r := c.Add(h2cElligator2(us[0][0]), h2cElligator2(us[1][0]))
+	return c.ScalarMul(r, big.NewInt(8)), [2]*big.Int{us[0][0], us[1][0]}, nil
+}
+
+func TestH2C25519Differential(t *testing.T) {
+	const test = "H2C25519Differential"
+	mont, edw := h2cTargetByName("curve25519"), h2cTargetByName("edwards25519")
+	vlib.Check(t, 2000, func(t *rapid.T) {
+		msg, mc := genH2CMsg(t, "msg")
+		dst, dc := genH2CDst(t, "dst", mont.defaultDST, mont.suite)
+		in := fmt.Sprintf("dst=%s(%s) msg=%s(%s)", vlib.Hex([]byte(dst)), dc, vlib.Hex(msg), mc)
+		want, u, err := h2cHashToCurve25519(msg, []byte(dst))
+		if err != nil {
+			t.Fatalf("%s: reference failed: %v", in, err)
+		}
+		if !mont.ref.IsOnCurve(want) {
+			t.Fatalf("%s: the reference result is not on curve25519 (oracle defect)", in)
+		}
+		var gm, ge h2cAffine
+		vlib.NoPanic(t, "HashWithDst "+in, func() {
+			if gm, err = mont.hashDst(dst, msg); err == nil {
+				ge, err = edw.hashDst(dst, msg)
+			}
+		})
+		if err != nil {
+			t.Fatalf("%s: error %v", in, err)
+		}
+		mp, err := h2cModel(mont, gm)
+		if err != nil || !mont.ref.Equal(mp, want) {
+			t.Fatalf("curve25519 %s: library %v, reference %v (u0=%x u1=%x) %v", in, gm, want, u[0], u[1], err)
+		}
+		// edwards25519_XMD:SHA-512_ELL2_RO_ is the same computation followed by the rational map
+		ep, err := h2cModel(edw, ge)
+		if err != nil || ge.identity || !mont.ref.Equal(h2cRationalMap9380(ep), want) {
+			t.Fatalf("edwards25519 %s: library %v does not map to the reference curve25519 point %v (u0=%x u1=%x) %v", in, ge, want, u[0], u[1], err)
+		}
+		vlib.Case(test, vlib.Desc("25519", mc, dc), len(msg) > 0 || dc != "default", "msg="+mc, "dst="+dc)
+		vlib.Sample("h2c-25519-diff", map[string]any{"dst": vlib.Hex([]byte(dst)), "msg": vlib.Hex(msg), "curve25519": gm.String(), "edwards25519": ge.String()})
 	})
 }
